@@ -259,14 +259,37 @@ func RaceWorker() {
 	if run.Repeat < 1 {
 		run.Repeat = 1
 	}
+	// the results "alone" are computed on one compiled instance of the module, the concurrent
+	// phase shares a second, untouched instance: nothing is warmed up before the goroutines meet
+	shared := *f
+	if shared.Module, err = parser.LoadModuleFromString(fx.Opener(), f.Yang); err != nil {
+		res.Err = err.Error()
+		out, _ := json.Marshal(res)
+		fmt.Println(string(out))
+		return
+	}
+	aloneYang := fcYang
+	if fcYang, err = parser.LoadModule(yang.InternalYPath, "fc-yang"); err != nil {
+		res.Err = err.Error()
+		out, _ := json.Marshal(res)
+		fmt.Println(string(out))
+		return
+	}
+	sharedYang := fcYang
 	ng := len(run.Progs)
 	ops := make([][]op, ng)
 	alone := make([][]string, ng)
+	fcYang = aloneYang
 	for g := 0; g < ng; g++ {
 		for i, k := range run.Progs[g] {
-			o := mkOp(f, k, g, i, run.Seed)
-			ops[g] = append(ops[g], o)
-			alone[g] = append(alone[g], o.run()) // run alone, before anything is concurrent
+			alone[g] = append(alone[g], mkOp(f, k, g, i, run.Seed).run()) // run alone, on the other instance
+		}
+	}
+	fcYang = sharedYang
+	before := dschema.Dump(shared.Module)
+	for g := 0; g < ng; g++ {
+		for i, k := range run.Progs[g] {
+			ops[g] = append(ops[g], mkOp(&shared, k, g, i, run.Seed))
 		}
 	}
 	start := make([]chan int, ng)
@@ -302,6 +325,13 @@ func RaceWorker() {
 	}
 	for g := 0; g < ng; g++ {
 		close(start[g])
+	}
+	// using a compiled module never changes what its accessors say
+	if after := dschema.Dump(shared.Module); after != before {
+		res.Same = append(res.Same, false)
+		if res.Diff == "" {
+			res.Diff = "the shared module reads differently after use"
+		}
 	}
 	out, _ := json.Marshal(res)
 	fmt.Println(string(out))
